@@ -238,7 +238,35 @@ def arity_of(path):
     return int(m.group(1)) if m else None
 
 
+OP_CLASS = {}
+for _cls, _ops in {
+    "ptr-arith": ("mut_ptr::add", "const_ptr::add", "mut_ptr::offset", "const_ptr::offset", "mut_ptr::sub", "const_ptr::sub", "mut_ptr::byte_add", "const_ptr::byte_add", "NonNull::add", "NonNull::offset"),
+    "unchecked-index": ("slice::get_unchecked", "slice::get_unchecked_mut"),
+    "raw-parts": ("slice::from_raw_parts", "slice::from_raw_parts_mut"),
+    "ptr-move": ("ptr::read", "ptr::write", "ptr::copy", "ptr::copy_nonoverlapping", "ptr::swap", "ptr::replace", "ptr::read_unaligned", "ptr::write_unaligned", "ptr::read_volatile", "ptr::write_volatile",
+                 "MaybeUninit::assume_init", "MaybeUninit::assume_init_ref", "MaybeUninit::assume_init_mut"),
+    "drop-in-place": ("ptr::drop_in_place",),
+    "alloc": ("alloc::alloc", "alloc::realloc", "alloc::dealloc", "Layout::from_size_align_unchecked"),
+    "assume": ("hint::unreachable_unchecked", "hint::assert_unchecked", "Option::unwrap_unchecked", "Result::unwrap_unchecked", "NonNull::new_unchecked", "NonZero::new_unchecked",
+               "num::unchecked_add", "num::unchecked_sub", "num::unchecked_mul"),
+    "transmute": ("transmute", "mem::transmute", "mem::transmute_copy", "mem::zeroed"),
+    "from-raw": ("Vec::set_len", "Vec::from_raw_parts", "String::from_utf8_unchecked", "str::from_utf8_unchecked", "Box::from_raw", "Rc::from_raw", "Arc::from_raw"),
+}.items():
+    for _o in _ops:
+        OP_CLASS[_o] = _cls
+
+
+def op_class(op):
+    return OP_CLASS.get(op, op)
+
+
 def rule_unchecked_inventory(ctx, R):
+    """C03-R2 as a who-may-use rule: an unchecked operation of class c (pointer arithmetic, unchecked indexing, raw deref,
+    raw-parts, pointer moves, allocator, assume-hints, transmute, call of a named local unsafe fn) may occur only in a
+    function family that the reviewed table lists for that class -- where a named rule discharges it. Counts and the exact
+    std API used are not compared (an `offset(1)` that becomes `add(1)`, a value read once instead of twice, are not findings);
+    a private helper that is not in the table is judged as part of the table functions that (transitively) call it, so
+    extracting unchecked code into a helper is not a finding either, but using it from somewhere new is."""
     import json
     from .r_unwind import TABLES
     try:
@@ -246,31 +274,80 @@ def rule_unchecked_inventory(ctx, R):
     except Exception as e:
         R.fail("ANCHOR", "tables/unchecked_sites.json", "reviewed table of unchecked sites missing: %s" % e, None)
         return
-    want = {}
+    allowed = {}
     for e in table:
-        want[(e["fn"], e["op"])] = e
+        allowed.setdefault(e["fn"], {})[op_class(e["op"])] = e.get("discharge", "")
+    owners = set(allowed)
+    g = ctx.gecs
+    # reverse call graph inside gecs (closures hang under their parent)
+    callers = {}
+    for path, fn in g.fns.items():
+        par = fn.d.get("parent")
+        if fn.kind == "Closure" and par:
+            callers.setdefault(path, set()).add(par)
+        for b in fn.blocks:
+            t = b["t"]
+            if t["k"] == "call" and not t["f"].get("indirect"):
+                c = g.lookup(t["f"])
+                if c is not None and c.path != path:
+                    callers.setdefault(c.path, set()).add(path)
+
+    def owners_of(path, seen=None):
+        """table families this function's unchecked code is attributed to; None = reaches no reviewed family"""
+        f_ = fam(path)
+        if f_ in owners:
+            return {f_}
+        seen = seen or set()
+        if path in seen:
+            return set()
+        seen = seen | {path}
+        cs = callers.get(path, set())
+        if not cs:
+            return None
+        out = set()
+        for c in cs:
+            o = owners_of(c, seen)
+            if o is None:
+                return None
+            out |= o
+        return out
+
     got = unchecked_sites(ctx)
-    mode = "debug" if ctx.debug else "release"
-    seen_keys = set()
+    n_ok = 0
+    used = set()
     for (path, op), n in sorted(got.items()):
-        k = (fam(path), op)
-        seen_keys.add(k)
-        e = want.get(k)
-        N_ = arity_of(path)
-        fn = ctx.gecs.fns[path]
-        if e is None:
-            R.fail("C03-R2", "UNREVIEWED-UNSAFE|%s|%s" % k, "%s performs %d unchecked operation(s) `%s` that are not in the reviewed table (tables/unchecked_sites.json): new unchecked code is never silently trusted" % (path, n, op), where_of(fn), fn=fn.key)
+        fn = g.fns[path]
+        if op.startswith("unsafe fn "):
+            # a call to a local unsafe helper that is itself not a reviewed family: its body is attributed upwards instead
+            callee_fams = set()
+            for b in fn.blocks:
+                t = b["t"]
+                if t["k"] == "call" and not t["f"].get("indirect"):
+                    c = g.lookup(t["f"])
+                    if c is not None and (c.sig() or {}).get("unsafe"):
+                        nm = "unsafe fn " + (c.short().split("::", 1)[-1] if "DataPtr" in c.path else c.short().split("::")[-1])
+                        if nm == op:
+                            callee_fams.add(fam(c.path))
+            if callee_fams and not (callee_fams & owners) and not any(x.split("::")[-1] in {o_.split("::")[-1] for o_ in owners} for x in callee_fams):
+                continue
+        cls = op_class(op)
+        os_ = owners_of(path)
+        if os_ is None or not os_:
+            R.fail("C03-R2", "UNREVIEWED-UNSAFE|%s|%s" % (fam(path), cls), "%s performs %d unchecked operation(s) `%s` (class %s) and neither it nor every function that calls it is in the reviewed table (tables/unchecked_sites.json): new unchecked code is never silently trusted" % (path, n, op, cls), where_of(fn), fn=fn.key)
             continue
-        a, b = e[mode]
-        if ctx.has("events"):
-            a, b = a + e.get("events_extra", [0, 0])[0], b + e.get("events_extra", [0, 0])[1]
-        expect = a + b * (N_ or 0)
-        R.check(n == expect, "C03-R2", "%s|%s" % k, "%d reviewed site(s): %s" % (expect, e.get("discharge", "")),
-                "%s has %d site(s) of `%s`, reviewed: %d (%s). An added unchecked access needs review." % (path, n, op, expect, e.get("discharge", "")), where_of(fn), fn=fn.key)
-    for k, e in sorted(want.items()):
-        if k not in seen_keys and (e[mode][0] or e[mode][1]):
-            if k[0].startswith("archetype::storage::StorageN") or True:
-                R.note("reviewed unchecked site %s|%s no longer exists (stale table entry)" % k)
+        for o in sorted(os_):
+            used.add((o, cls))
+            ok = cls in allowed.get(o, {})
+            if ok:
+                n_ok += 1
+            R.check(ok, "C03-R2", "%s|%s" % (o, cls) if ok else "UNREVIEWED-UNSAFE|%s|%s" % (o, cls), "reviewed: %s" % allowed.get(o, {}).get(cls, ""),
+                    "%s performs `%s` (class %s)%s; the reviewed table lists for %s only %s. An unchecked operation of a new kind in this function needs review (no rule discharges it)." % (
+                        path, op, cls, "" if fam(path) == o else ", attributed to its caller " + o, o, sorted(allowed.get(o, {}))), where_of(fn), fn=fn.key)
+    R.check(n_ok >= 60, "C03-R2", "inventory|count", "%d (function, class) uses matched against the reviewed table" % n_ok, "only %d unchecked uses found (expected >= 60): the scan lost its anchors" % n_ok, None)
+    for o, cl in sorted(allowed.items()):
+        for c in sorted(cl):
+            if (o, c) not in used:
+                R.note("reviewed unchecked use %s|%s does not occur in this configuration" % (o, c))
 
 
 import os  # noqa: E402
